@@ -5,6 +5,8 @@ usage: seed_matrix.py <seed root> [--store] [--tag r2]   (seed root has <ID>/<n>
 """
 import json, os, subprocess, sys, glob, shutil
 from concurrent.futures import ThreadPoolExecutor
+import threading
+GIT_LOCK = threading.Lock()
 VERIF = os.path.dirname(os.path.dirname(os.path.abspath(__file__)))
 root = sys.argv[1]
 store = '--store' in sys.argv
@@ -18,8 +20,9 @@ def run(seed):
     prop = os.path.basename(os.path.dirname(d)); n = os.path.basename(d)
     wt = '/tmp/sm/%s-%s' % (prop, n)
     shutil.rmtree(wt, ignore_errors=True)
-    subprocess.run(['git', '-C', '/repo', 'worktree', 'prune'], capture_output=True)
-    r = subprocess.run(['git', '-C', '/repo', 'worktree', 'add', '--detach', wt, head], capture_output=True)
+    with GIT_LOCK:
+        subprocess.run(['git', '-C', '/repo', 'worktree', 'prune'], capture_output=True)
+        r = subprocess.run(['git', '-C', '/repo', 'worktree', 'add', '--detach', wt, head], capture_output=True)
     if r.returncode:
         return prop, n, None, r.stderr.decode()[-200:]
     try:
@@ -28,19 +31,25 @@ def run(seed):
             return prop, n, None, 'apply failed'
         fired = {}
         env = dict(os.environ, SPYNE_REPO=wt)
-        for i in ids:
-            p = subprocess.run(['/venv/bin/python', VERIF + '/sa/check.py', i, '--tier', 'quick', '--no-mutants', '--no-evidence'],
-                               capture_output=True, env=env)
-            out = p.stdout.decode()
-            if p.returncode == 1:
-                fired[i] = [l[8:].split(' at ')[0] for l in out.splitlines() if l.startswith('FINDING ')][:4]
-            elif p.returncode == 2:
-                fired[i + '(analysis-error)'] = [l for l in out.splitlines() if l.startswith('ANALYSIS-ERROR')][:2]
+        p = subprocess.run(['/venv/bin/python', VERIF + '/sa/check.py', ','.join(ids), '--tier', 'quick', '--no-mutants', '--no-evidence'],
+                           capture_output=True, env=env)
+        block = []
+        for l in p.stdout.decode().splitlines():
+            if l.startswith('== C') and ' exit=' in l:
+                i, rc = l[3:].split(' exit=')
+                if rc == '1':
+                    fired[i] = [x[8:].split(' at ')[0] for x in block if x.startswith('FINDING ')][:4]
+                elif rc == '2':
+                    fired[i + '(analysis-error)'] = [x for x in block if x.startswith('ANALYSIS-ERROR')][:2]
+                block = []
+            else:
+                block.append(l)
         return prop, n, fired, ''
     finally:
-        subprocess.run(['git', '-C', '/repo', 'worktree', 'remove', '--force', wt], capture_output=True)
+        with GIT_LOCK:
+            subprocess.run(['git', '-C', '/repo', 'worktree', 'remove', '--force', wt], capture_output=True)
 
-with ThreadPoolExecutor(8) as ex:
+with ThreadPoolExecutor(14) as ex:
     results = list(ex.map(run, seeds))
 summary = {}
 for prop, n, fired, err in results:
